@@ -14,18 +14,18 @@ open OtpVerif OtpVerif.Std OtpVerif.Model OtpVerif.Model.Rest OtpVerif.Lemmas
 
 /-- regenerated: `DigitsFromStr` only ever yields a supported code length, `AlgorithmFromStr` a supported hash -/
 theorem fromStr_tables :
-    Gen.digitsFromStr.all (fun e => decide (1 ≤ e.2 ∧ e.2 ≤ 10)) = true ∧ (1 ≤ Gen.digitsFallback ∧ Gen.digitsFallback ≤ 10) ∧
-    Gen.algoFromStr.all (fun e => decide (e.2 < 3)) = true ∧ Gen.algoFallback < 3 := by decide
+    documentedDigits.all (fun e => decide (1 ≤ e.2 ∧ e.2 ≤ 10)) = true ∧ (1 ≤ 6 ∧ 6 ≤ 10) ∧
+    documentedAlgos.all (fun e => decide (e.2 < 3)) = true ∧ 0 < 3 := by decide
 
 /-- the spellings the library recognises (among the probed candidates, which include zero-padded, signed, spaced,
 wide-character and wrapping numerals): exactly the documented ones; everything else falls back to 6 digits / SHA-1 -/
 theorem C18_fromStr_documented :
-    Gen.digitsFromStr = [("6", 6), ("8", 8), ("9", 9), ("10", 10)] ∧ Gen.digitsFallback = 6 ∧
-    Gen.algoFromStr = [("SHA1", 0), ("SHA256", 1), ("SHA512", 2)] ∧ Gen.algoFallback = 0 := ⟨rfl, rfl, rfl, rfl⟩
+    Gen.digitsFromStr = documentedDigits ∧ Gen.digitsFallback = 6 ∧
+    Gen.algoFromStr = documentedAlgos ∧ Gen.algoFallback = 0 := ⟨rfl, rfl, rfl, rfl⟩
 
 theorem digitsFromStr_range (s : Bytes) : 1 ≤ digitsFromStr s ∧ digitsFromStr s ≤ 10 := by
   unfold digitsFromStr
-  cases h : Gen.digitsFromStr.find? (fun e => e.1.toUTF8.toList == s) with
+  cases h : documentedDigits.find? (fun e => e.1.toUTF8.toList == s) with
   | none => exact fromStr_tables.2.1
   | some e =>
     have := List.all_eq_true.mp fromStr_tables.1 e (List.mem_of_find?_eq_some h)
@@ -33,7 +33,7 @@ theorem digitsFromStr_range (s : Bytes) : 1 ≤ digitsFromStr s ∧ digitsFromSt
 
 theorem algoFromStr_range (s : Bytes) : algoFromStr s < 3 := by
   unfold algoFromStr
-  cases h : Gen.algoFromStr.find? (fun e => e.1.toUTF8.toList == s) with
+  cases h : documentedAlgos.find? (fun e => e.1.toUTF8.toList == s) with
   | none => exact fromStr_tables.2.2.2
   | some e =>
     have := List.all_eq_true.mp fromStr_tables.2.2.1 e (List.mem_of_find?_eq_some h)
